@@ -288,7 +288,8 @@ pub fn decoy_config(c: &EntityConfig) -> EntityConfig {
 /// Adaptive loss: every PDU is dropped with probability p, subject to budgets that keep every
 /// retransmission counter of the protocol below its limit: at most `limit-1` drops among
 /// {EOF, ACK(EOF)}, at most `limit-1` among {Finished, ACK(Finished)}, and at most `limit-1` among
-/// {NAK, retransmitted data / metadata} since new file data last reached the receiver. First
+/// {NAK, retransmitted data / metadata} since new file data last reached the receiver (counted from the
+/// start as long as the metadata has not been delivered). First
 /// transmissions of data and metadata may be dropped without limit.
 #[derive(Clone, Debug)]
 pub struct Dropper {
@@ -304,6 +305,9 @@ struct DropTr {
     nak_used: u32,
     cursor: u64,
     md_sent: bool,
+    /// a Metadata PDU has been delivered (until then new file data does not refill the NAK budget: the
+    /// outstanding metadata request shares the receiver's NAK counter and is not helped by data)
+    md_delivered: bool,
     covered: Vec<bool>,
 }
 struct DropState {
@@ -623,6 +627,10 @@ impl Sched {
     /// a delivery of new file data refills the NAK-phase budget
     fn dropper_sees_delivery(&mut self, bytes: &[u8]) {
         if let Some(ds) = self.dropper.as_mut() {
+            if let Ok(PDU { header, payload: PDUPayload::Directive(Operations::Metadata(_)) }) = PDU::decode(&mut &bytes[..]) {
+                let key = (header.source_entity_id.to_u64(), header.transaction_sequence_number.to_u64());
+                ds.tr.entry(key).or_default().md_delivered = true;
+            }
             if let Ok(PDU { header, payload: PDUPayload::FileData(FileDataPDU::Unsegmented(u)) }) = PDU::decode(&mut &bytes[..]) {
                 let key = (header.source_entity_id.to_u64(), header.transaction_sequence_number.to_u64());
                 let t = ds.tr.entry(key).or_default();
@@ -638,7 +646,7 @@ impl Sched {
                             newb = true;
                         }
                     }
-                    if newb {
+                    if newb && t.md_delivered {
                         t.nak_used = 0;
                     }
                 }
